@@ -106,7 +106,7 @@ def monOp (op : String) (args : List String) : Option String :=
     let (xs, _) ← pRepeat pNat 10 args
     match xs with
     | [a, b, c, d, e, a', b', c', d', e'] =>
-      some (if a == a' && b == b' && c == c' && d == d' && e == e' then "ok" else "viol C12-quote")
+      some (verdict (monQuote [a, b, c, d, e] [a', b', c', d', e']))
     | _ => none
   | "mon_static" => do
     let (_, ts) ← pTok args
@@ -140,19 +140,19 @@ def monOp (op : String) (args : List String) : Option String :=
       let (f, ts) ← pNat ts
       let (o, ts) ← pBit ts
       pure ((b, p, f, o), ts)) k ts
-    some (if xs.all (fun x => x.2.1 + x.2.2.1 ≤ x.1 && !x.2.2.2) then "ok" else "viol C05-custody")
+    some (verdict (monFmCustody xs))
   | "mon_weights" => do
     let (_, ts) ← pTok args
     let (t, ts) ← pNat ts
     let (u, _) ← pNat ts
-    some (if u ≤ t then "ok" else "viol C10-total-covers")
+    some (verdict (monWeightsCover t u))
   | "mon_weights_epoch" => do
     -- C10 for every epoch: <lp> <epoch> <total weight in effect> <sum of the users' weights in effect>
     let (_, ts) ← pTok args
     let (_e, ts) ← pNat ts
     let (t, ts) ← pNat ts
     let (u, _) ← pNat ts
-    some (if u ≤ t then "ok" else "viol C10-total-covers")
+    some (verdict (monWeightsCover t u))
   | "mon_no_pos_no_weight" => do
     let (xs, _) ← pRepeat pBit 4 args
     match xs with
@@ -192,8 +192,7 @@ def monOp (op : String) (args : List String) : Option String :=
     let (fc, ts) ← pInt ts
     let (extra, ts) ← pInt ts
     let (fa, _) ← pNat ts
-    some (if extra != 0 then "viol C11-create-exact" else if fc != fee then "viol C11-fee-routed"
-          else if fa != aa then "viol C11-budget" else "ok")
+    some (verdict (monFarmCreate aa fee fc extra fa))
   | "mon_claim" => do
     let (until_, ts) ← pNat args
     let (cursor, ts) ← pOptNat ts
@@ -261,10 +260,7 @@ def monOp (op : String) (args : List String) : Option String :=
     let (same, _) ← pBit ts
     match xs with
     | [rate, attached, endB, endA, amtB, amtA] =>
-      some (if rate == 0 then "ok"
-        else if amtA != amtB + attached then "viol C11-expand-budget"
-        else if endA != endB + attached / rate then "viol C11-expand-end"
-        else if !same then "viol C11-expand-other-fields" else "ok")
+      some (verdict (monFarmExpand rate attached endB endA amtB amtA same))
     | _ => none
   | "mon_close_refunds" => do
     let (_n, ts) ← pNat args
@@ -277,7 +273,7 @@ def monOp (op : String) (args : List String) : Option String :=
     let (ownerGot, ts) ← pInt ts
     let (fmOut, ts) ← pInt ts
     let (others, _) ← pInt ts
-    some (if ownerGot == (remaining : Int) && fmOut == (remaining : Int) && others == 0 then "ok" else "viol C11-close-refund")
+    some (verdict (monFarmClose remaining ownerGot fmOut others))
   | "mon_farm_autoclose" => do
     let (xs, _) ← pRepeat pNat 4 args
     match xs with
